@@ -33,7 +33,9 @@ func ReadEncryptedLeaseSet(data []byte) (els EncryptedLeaseSet, remainder []byte
 	}
 
 	if err = els.Validate(); err != nil {
-		return
+		// Do not hand the completely parsed (and possibly correctly signed) value back
+		// together with the error: callers that keep it would find that it verifies.
+		return EncryptedLeaseSet{}, nil, err
 	}
 
 	logParsedEncryptedLeaseSet(&els)
